@@ -326,7 +326,9 @@ func ruleMatchCells(p *Program, r *Reporter) {
 		}
 	}
 	if tbl == nil {
-		r.Undecided("string/regexp table", "-", "no operator table asserting (String, Regexp)")
+		// not written as a switch with a clause per operator: decide the cells
+		// by walking the function under each assumption
+		matchCellsByEvaluation(p, r, a)
 		return
 	}
 	for _, spec := range []struct {
@@ -389,6 +391,107 @@ func ruleMatchCells(p *Program, r *Reporter) {
 			r.Fail(key, p.Pos(iff.Pos()), fmt.Sprintf("%s pushes %s on a match and %s otherwise; the language defines %s / %s", spec.op, gotT, gotF, spec.onMatch, spec.onNoMatch))
 		default:
 			r.OkNT(key, p.Pos(iff.Pos()), fmt.Sprintf("match → %s, no match → %s, arguments (string, regexp)", gotT, gotF))
+		}
+	}
+}
+
+// matchCellsByEvaluation: the (String, Regexp) operator function is found by
+// the types it asserts its operands to; for each operator and each answer of
+// the matcher the function is walked and what it pushes is compared with the
+// language's definition.
+func matchCellsByEvaluation(p *Program, r *Reporter, a *anchors) {
+	var fn *ssa.Function
+	for _, f := range a.optTables {
+		if len(f.Params) < 4 {
+			continue
+		}
+		l, rr := false, false
+		for _, b := range f.Blocks {
+			for _, ins := range b.Instrs {
+				ta, ok := ins.(*ssa.TypeAssert)
+				if !ok {
+					continue
+				}
+				if ta.X == ssa.Value(f.Params[2]) && objectStructName(ta.AssertedType) == "String" {
+					l = true
+				}
+				if ta.X == ssa.Value(f.Params[3]) && objectStructName(ta.AssertedType) == "Regexp" {
+					rr = true
+				}
+			}
+		}
+		if l && rr {
+			fn = f
+		}
+	}
+	if fn == nil {
+		r.Undecided("string/regexp table", "-", "no operator function asserting (String, Regexp)")
+		return
+	}
+	oc := p.Opcodes()
+	results := loadsOfBooleanValue(fn)
+	// the arguments handed to the matcher: a two-element list (left, right)
+	orderOK := false
+	for _, b := range fn.Blocks {
+		for _, ins := range b.Instrs {
+			al, ok := ins.(*ssa.Alloc)
+			if !ok {
+				continue
+			}
+			at, ok := deref(al.Type()).Underlying().(*types.Array)
+			if !ok || at.Len() != 2 || !isObjectIface(at.Elem()) {
+				continue
+			}
+			var e0, e1 ssa.Value
+			for _, ref := range *al.Referrers() {
+				ia, ok := ref.(*ssa.IndexAddr)
+				if !ok {
+					continue
+				}
+				k, _ := constInt(ia.Index)
+				for _, r2 := range *ia.Referrers() {
+					if st, ok := r2.(*ssa.Store); ok {
+						if k == 0 {
+							e0 = st.Val
+						} else {
+							e1 = st.Val
+						}
+					}
+				}
+			}
+			if e0 != nil && e1 != nil && directPart(e0, fn.Params[2], 0) == "" && directPart(e1, fn.Params[3], 0) == "" {
+				orderOK = true
+			}
+		}
+	}
+	for _, spec := range []struct {
+		op        string
+		onMatch   string
+		onNoMatch string
+	}{{"OpMatches", "true", "false"}, {"OpNotMatches", "false", "true"}} {
+		key := "cell " + spec.op
+		val, known := oc.byName[spec.op]
+		if !known || len(results) == 0 {
+			r.Undecided(key, p.Pos(fn.Pos()), "the opcode or the matcher's result cannot be found in "+fn.Name())
+			continue
+		}
+		got := map[bool]pathOutcomes{}
+		for _, m := range []bool{true, false} {
+			env := map[ssa.Value]constant.Value{fn.Params[1]: constant.MakeInt64(val)}
+			for _, ld := range results {
+				env[ld] = constant.MakeBool(m)
+			}
+			got[m] = pushOutcomes(p, fn, env)
+		}
+		switch {
+		case !orderOK:
+			r.Fail(key, p.Pos(fn.Pos()), "the match function is not given (string, regexp) in that order")
+		case got[true]["?"] || got[false]["?"]:
+			r.Undecided(key, p.Pos(fn.Pos()), "the function could not be walked to the end under the assumption "+spec.op)
+		case !got[true].only(spec.onMatch) || !got[false].only(spec.onNoMatch):
+			r.Fail(key, p.Pos(fn.Pos()), fmt.Sprintf("%s pushes %s on a match and %s otherwise; the language defines %s / %s", spec.op, got[true], got[false], spec.onMatch, spec.onNoMatch))
+		default:
+			r.OkNT(key, p.Pos(fn.Pos()), fmt.Sprintf("match → %s, no match → %s, arguments (string, regexp); decided by walking %s under each assumption", spec.onMatch, spec.onNoMatch, fn.Name()))
 		}
 	}
 }
@@ -456,7 +559,8 @@ func ruleMembership(p *Program, r *Reporter) {
 		r.Undecided(key, p.Pos(fd.Pos()), "no clause deciding on op == OpArrayIn in the dispatcher")
 	} else {
 		var cond ast.Expr
-		for _, st := range inClause.Body {
+		inBody, _ := delegatedBody(p, info, inClause.Body)
+		for _, st := range inBody {
 			ast.Inspect(st, func(n ast.Node) bool {
 				if rs, ok := n.(*ast.RangeStmt); ok {
 					for _, b := range rs.Body.List {
@@ -482,9 +586,9 @@ func ruleMembership(p *Program, r *Reporter) {
 		r.Undecided(key2, "-", "no handler for OpCase")
 		return
 	}
-	infoR := p.Info(a.vmRun)
+	caseBody, infoR := delegatedBody(p, p.Info(a.vmRun), cl.Body)
 	var top *ast.IfStmt
-	for _, st := range cl.Body {
+	for _, st := range caseBody {
 		if iff, ok := st.(*ast.IfStmt); ok && top == nil && iff.Else != nil {
 			top = iff
 		}
@@ -749,90 +853,163 @@ func ruleIterNext(p *Program, r *Reporter) {
 		}
 		n++
 		key := "iteration step of object." + tn
-		fd := p.FuncDecl(fn)
-		info := p.Info(fn)
-		// shape: if recv.offset < LEN { … recv.offset++ … return X, IDX, true }; return nil, _, false
-		var guard *ast.IfStmt
-		for _, st := range fd.Body.List {
-			if iff, ok := st.(*ast.IfStmt); ok && guard == nil {
-				guard = iff
-			}
-		}
-		if guard == nil {
-			r.Undecided(key, p.Pos(fn.Pos()), "no guarding if statement")
-			continue
-		}
-		be, ok := ast.Unparen(guard.Cond).(*ast.BinaryExpr)
-		// the iteration cursor: the int field of the iterable value type
-		isCursor := func(e ast.Expr) bool {
-			sel, ok := ast.Unparen(e).(*ast.SelectorExpr)
-			if !ok {
+		// the iteration cursor: the int field of the iterable value type that
+		// the step stores to
+		isCursorAddr := func(v ssa.Value) bool {
+			fa, ok := v.(*ssa.FieldAddr)
+			if !ok || fa.X != ssa.Value(fn.Params[0]) {
 				return false
 			}
-			s, ok := info.Selections[sel]
-			return ok && s.Kind() == types.FieldVal && isBasicKind(types.Int)(s.Obj().Type()) && objectStructName(s.Recv()) != ""
+			st, ok := deref(fa.X.Type()).Underlying().(*types.Struct)
+			return ok && isBasicKind(types.Int)(st.Field(fa.Field).Type())
 		}
-		if !ok || be.Op != token.LSS || !isCursor(be.X) {
-			r.Fail(key, p.Pos(guard.Pos()), "the step is not guarded by cursor < length ("+exprStr(guard.Cond)+"): the last element is skipped or the step runs past the end")
+		isCursorLoad := func(v ssa.Value) bool {
+			ld, ok := v.(*ssa.UnOp)
+			return ok && ld.Op == token.MUL && isCursorAddr(ld.X)
+		}
+		var yields, exhausts []*ssa.BasicBlock
+		for _, b := range fn.Blocks {
+			ret, ok := terminator(b).(*ssa.Return)
+			if !ok || len(ret.Results) != 3 {
+				continue
+			}
+			if c, ok := ret.Results[2].(*ssa.Const); ok && c.Value != nil && c.Value.Kind() == constant.Bool {
+				if constant.BoolVal(c.Value) {
+					yields = append(yields, b)
+				} else {
+					exhausts = append(exhausts, b)
+				}
+			}
+		}
+		if len(yields) == 0 {
+			r.Undecided(key, p.Pos(fn.Pos()), "no return that yields an element (…, true)")
 			continue
 		}
-		lenOK := strings.Contains(exprStr(be.Y), "len(") || strings.Contains(exprStr(be.Y), "RuneCountInString")
-		// increments of the cursor inside the guard: exactly one `++`
-		incs := 0
-		otherWrites := 0
-		ast.Inspect(guard.Body, func(m ast.Node) bool {
-			switch x := m.(type) {
-			case *ast.IncDecStmt:
-				if isCursor(x.X) {
-					if x.Tok == token.INC {
-						incs++
-					} else {
-						otherWrites++
-					}
+		// (a) every yield lies on the cursor < length side of a comparison
+		lengthLike := func(v ssa.Value) bool {
+			for _, o := range origins(v) {
+				if _, ok := isBuiltinCall(o, "len"); ok {
+					return true
 				}
-			case *ast.AssignStmt:
-				for _, l := range x.Lhs {
-					if isCursor(l) {
-						otherWrites++
+				if c, ok := o.(*ssa.Call); ok && c.Call.StaticCallee() != nil && strings.Contains(c.Call.StaticCallee().Name(), "RuneCount") {
+					return true
+				}
+			}
+			return false
+		}
+		guarded, lenOK := true, true
+		guardPos := fn.Pos()
+		for _, yb := range yields {
+			g := false
+			for d := yb; d.Idom() != nil; d = d.Idom() {
+				id := d.Idom()
+				iff, ok := terminator(id).(*ssa.If)
+				if !ok || len(d.Preds) != 1 {
+					continue
+				}
+				bo, ok := iff.Cond.(*ssa.BinOp)
+				if !ok {
+					continue
+				}
+				var inside *ssa.BasicBlock // where cursor < other holds
+				var other ssa.Value
+				switch {
+				case isCursorLoad(bo.X) && bo.Op == token.LSS:
+					inside, other = id.Succs[0], bo.Y
+				case isCursorLoad(bo.X) && bo.Op == token.GEQ:
+					inside, other = id.Succs[1], bo.Y
+				case isCursorLoad(bo.Y) && bo.Op == token.GTR:
+					inside, other = id.Succs[0], bo.X
+				case isCursorLoad(bo.Y) && bo.Op == token.LEQ:
+					inside, other = id.Succs[1], bo.X
+				default:
+					continue
+				}
+				if inside == d {
+					g = true
+					guardPos = iff.Pos()
+					if !lengthLike(other) {
+						lenOK = false
 					}
 				}
 			}
-			return true
-		})
-		// the element read: index offset-1 after the increment, or offset before it;
-		// for the hash: the entry whose ordinal equals the cursor
+			if !g {
+				guarded = false
+			}
+		}
+		// (b) the cursor advances by exactly one on the way to a yield
+		var stores []*ssa.Store
+		plusOne := true
+		for _, b := range fn.Blocks {
+			for _, ins := range b.Instrs {
+				st, ok := ins.(*ssa.Store)
+				if !ok || !isCursorAddr(st.Addr) {
+					continue
+				}
+				stores = append(stores, st)
+				base, k := linear(st.Val)
+				if !isCursorLoad(base) || k != 1 {
+					plusOne = false
+				}
+			}
+		}
+		once := plusOne && len(stores) > 0
+		for _, yb := range yields {
+			n := 0
+			for _, st := range stores {
+				if st.Block() == yb || st.Block().Dominates(yb) {
+					n++
+				}
+			}
+			if n != 1 {
+				once = false
+			}
+		}
+		for _, s1 := range stores {
+			for _, s2 := range stores {
+				if s1 != s2 && blockReaches(s1.Block(), s2.Block(), nil) {
+					once = false
+				}
+			}
+		}
+		// (c) the element yielded is the one at the cursor's old position
 		idxOK := false
-		ast.Inspect(guard.Body, func(m ast.Node) bool {
-			switch x := m.(type) {
-			case *ast.IndexExpr:
-				if be, ok := ast.Unparen(x.Index).(*ast.BinaryExpr); ok && be.Op == token.SUB && isCursor(be.X) {
-					if tv, ok := info.Types[be.Y]; ok && tv.Value != nil && tv.Value.String() == "1" {
+		for _, b := range fn.Blocks {
+			for _, ins := range b.Instrs {
+				switch x := ins.(type) {
+				case *ssa.IndexAddr:
+					base, k := linear(x.Index)
+					if isCursorLoad(base) {
+						// old value read before the store (k == 0), or the new
+						// value minus one
+						before := true
+						for _, st := range stores {
+							if dominatesInstr(st, base.(ssa.Instruction)) {
+								before = false
+							}
+						}
+						if (before && k == 0) || (!before && k == -1) {
+							idxOK = true
+						}
+					}
+				case *ssa.BinOp:
+					// hash: the entry whose ordinal equals the cursor
+					if x.Op == token.EQL && (isCursorLoad(x.X) || isCursorLoad(x.Y)) {
 						idxOK = true
 					}
 				}
-			case *ast.BinaryExpr:
-				// hash: `h.offset == idx` selects the entry
-				if x.Op == token.EQL && isCursor(x.X) {
-					idxOK = true
-				}
-			}
-			return true
-		})
-		// exhaustion: the statement after the guard returns …, false
-		exhaust := false
-		if last, ok := fd.Body.List[len(fd.Body.List)-1].(*ast.ReturnStmt); ok && len(last.Results) == 3 {
-			if id, ok := last.Results[2].(*ast.Ident); ok && id.Name == "false" {
-				exhaust = true
 			}
 		}
 		switch {
+		case !guarded:
+			r.Fail(key, p.Pos(guardPos), "the step is not guarded by cursor < length: the last element is skipped or the step runs past the end")
 		case !lenOK:
-			r.Fail(key, p.Pos(guard.Pos()), "the cursor is not compared with the length of the container")
-		case incs != 1 || otherWrites != 0:
-			r.Fail(key, p.Pos(guard.Pos()), fmt.Sprintf("the cursor is advanced %d time(s) (other writes: %d) per step; it must advance by exactly one: elements would be skipped or repeated", incs, otherWrites))
+			r.Fail(key, p.Pos(guardPos), "the cursor is not compared with the length of the container")
+		case !once:
+			r.Fail(key, p.Pos(guardPos), fmt.Sprintf("the cursor is not advanced by exactly one per step (%d store(s) to it): elements would be skipped or repeated", len(stores)))
 		case !idxOK:
-			r.Fail(key, p.Pos(guard.Pos()), "the element yielded is not the one at the cursor's position before the step")
-		case !exhaust:
+			r.Fail(key, p.Pos(guardPos), "the element yielded is not the one at the cursor's position before the step")
+		case len(exhausts) == 0:
 			r.Fail(key, p.Pos(fn.Pos()), "past the end the step does not report exhaustion (false)")
 		default:
 			r.OkNT(key, p.Pos(fn.Pos()), "guard cursor < length; one increment; element at the old position; false when exhausted")
@@ -984,9 +1161,18 @@ func ruleKindTable(p *Program, r *Reporter) {
 				}
 				return true
 			})
+			// the slice conversion walks the members with Index
+			walksMembers := false
+			for _, b := range fn.Blocks {
+				for _, ins := range b.Instrs {
+					if c, ok := ins.(*ssa.Call); ok && c.Call.StaticCallee() != nil && c.Call.StaticCallee().String() == "(reflect.Value).Index" {
+						walksMembers = true
+					}
+				}
+			}
 			if hasKindSwitch {
 				conv = fn
-			} else if hasAsserts {
+			} else if hasAsserts || walksMembers {
 				sliceConv = fn
 			}
 		}
@@ -1199,33 +1385,62 @@ func ruleKindTable(p *Program, r *Reporter) {
 		}
 		return true
 	})
+	// the typed conversions of a member, in either spelling: a chain of
+	// `x, ok := in.(T); if ok {…}` or a type switch with one case per type
+	type elemCase struct {
+		goT     string
+		varName string
+		body    ast.Node
+		pos     token.Pos
+	}
+	var cases []elemCase
 	for i, st := range stmts {
-		as, ok := st.(*ast.AssignStmt)
-		if !ok || len(as.Lhs) != 2 || len(as.Rhs) != 1 {
-			continue
+		switch x := st.(type) {
+		case *ast.AssignStmt:
+			if len(x.Lhs) != 2 || len(x.Rhs) != 1 || i+1 >= len(stmts) {
+				continue
+			}
+			ta, ok := x.Rhs[0].(*ast.TypeAssertExpr)
+			if !ok || ta.Type == nil {
+				continue
+			}
+			iff, ok := stmts[i+1].(*ast.IfStmt)
+			if !ok {
+				continue
+			}
+			name := ""
+			if id, ok := x.Lhs[0].(*ast.Ident); ok {
+				name = id.Name
+			}
+			cases = append(cases, elemCase{exprStr(ta.Type), name, iff.Body, iff.Pos()})
+		case *ast.TypeSwitchStmt:
+			name := ""
+			if as, ok := x.Assign.(*ast.AssignStmt); ok && len(as.Lhs) == 1 {
+				if id, ok := as.Lhs[0].(*ast.Ident); ok {
+					name = id.Name
+				}
+			}
+			for _, cc := range x.Body.List {
+				cl := cc.(*ast.CaseClause)
+				if len(cl.List) != 1 {
+					continue
+				}
+				cases = append(cases, elemCase{exprStr(cl.List[0]), name, cl, cl.Pos()})
+			}
 		}
-		ta, ok := as.Rhs[0].(*ast.TypeAssertExpr)
-		if !ok || ta.Type == nil {
-			continue
-		}
-		goT := exprStr(ta.Type)
+	}
+	for _, ec := range cases {
+		goT := ec.goT
 		w, tracked := wantElem[goT]
-		if !tracked || i+1 >= len(stmts) {
+		if !tracked {
 			continue
 		}
-		varName := ""
-		if id, ok := as.Lhs[0].(*ast.Ident); ok {
-			varName = id.Name
-		}
-		iff, ok := stmts[i+1].(*ast.IfStmt)
-		if !ok {
-			continue
-		}
+		varName := ec.varName
 		seenE[goT] = true
 		key := "slice element of Go type " + goT
 		var lit *ast.CompositeLit
 		var val ast.Expr
-		ast.Inspect(iff.Body, func(m ast.Node) bool {
+		ast.Inspect(ec.body, func(m ast.Node) bool {
 			if c, ok := m.(*ast.CompositeLit); ok && lit == nil && objectStructName(infoS.Types[c].Type) != "" {
 				lit = c
 				for _, el := range c.Elts {
@@ -1237,7 +1452,7 @@ func ruleKindTable(p *Program, r *Reporter) {
 			return true
 		})
 		if lit == nil || val == nil {
-			r.Fail(key, p.Pos(iff.Pos()), "no object is appended for this element type")
+			r.Fail(key, p.Pos(ec.pos), "no object is appended for this element type")
 			continue
 		}
 		got := objectStructName(infoS.Types[lit].Type)
@@ -1249,8 +1464,27 @@ func ruleKindTable(p *Program, r *Reporter) {
 			r.Ok(key, p.Pos(val.Pos()), "→ "+got)
 		}
 	}
+	// a type without a case of its own goes the way of every other member:
+	// through the kind switch, which has the case (checked above)
+	fallback := false
+	for _, b := range sliceConv.Blocks {
+		for _, ins := range b.Instrs {
+			if c, ok := ins.(*ssa.Call); ok && c.Call.StaticCallee() == conv {
+				fallback = true
+			}
+		}
+	}
+	var untyped []string
 	for k := range wantElem {
 		if !seenE[k] {
+			untyped = append(untyped, k)
+		}
+	}
+	sort.Strings(untyped)
+	for _, k := range untyped {
+		if fallback {
+			r.Ok("slice element of Go type "+k, p.Pos(sliceConv.Pos()), "no case of its own: converted by kind like a field")
+		} else {
 			r.Fail("slice element of Go type "+k, p.Pos(sliceConv.Pos()), "slice elements of this type are not converted (they are dropped, shortening the array)")
 		}
 	}
@@ -1281,64 +1515,119 @@ func rulePopOrder(p *Program, r *Reporter) {
 	if a == nil {
 		return
 	}
-	for _, op := range []string{"OpArray", "OpCall"} {
-		cl := handlerClause(p, a, op)
-		key := op + " stores popped values from the last index down"
-		if cl == nil {
-			r.Undecided(key, "-", "no handler")
-			continue
+	// value = base + k for a constant k
+	lin := func(v ssa.Value) (ssa.Value, int64) {
+		k := int64(0)
+		for d := 0; d < 4; d++ {
+			bo, ok := v.(*ssa.BinOp)
+			if !ok || (bo.Op != token.ADD && bo.Op != token.SUB) {
+				break
+			}
+			c, ok := constInt(bo.Y)
+			if !ok {
+				break
+			}
+			if bo.Op == token.SUB {
+				c = -c
+			}
+			k += c
+			v = bo.X
 		}
-		argObj := operandVar(p, a.vmRun)
-		info := p.Info(a.vmRun)
-		// for opArg > 0 { X[opArg-1], err = Pop(); …; opArg-- }
-		good := false
-		why := "no loop of the form `for n > 0 { slice[n-1] = pop; n-- }` over the operand"
-		ast.Inspect(cl, func(n ast.Node) bool {
-			f, ok := n.(*ast.ForStmt)
-			if !ok || f.Cond == nil {
-				return true
-			}
-			be, ok := f.Cond.(*ast.BinaryExpr)
-			if !ok || be.Op != token.GTR {
-				return true
-			}
-			id, ok := be.X.(*ast.Ident)
-			if !ok || info.Uses[id] != argObj {
-				return true
-			}
-			storesAt := ""
-			dec := false
-			ast.Inspect(f.Body, func(m ast.Node) bool {
-				switch x := m.(type) {
-				case *ast.AssignStmt:
-					for i, l := range x.Lhs {
-						if ix, ok := l.(*ast.IndexExpr); ok && i == 0 {
-							if len(x.Rhs) == 1 {
-								if ce, ok := x.Rhs[0].(*ast.CallExpr); ok {
-									if fo, ok := calleeObj(info, ce).(*types.Func); ok && fo.Name() == "Pop" {
-										storesAt = strings.ReplaceAll(exprStr(ix.Index), " ", "")
-									}
-								}
-							}
-						}
-					}
-				case *ast.IncDecStmt:
-					if x.Tok == token.DEC {
-						if id2, ok := x.X.(*ast.Ident); ok && info.Uses[id2] == argObj {
-							dec = true
+		return v, k
+	}
+	found := map[string]bool{}
+	why := map[string]string{}
+	pos := map[string]token.Pos{}
+	// the handlers, wherever their text sits
+	fns := []*ssa.Function{a.vmRun}
+	for _, f := range p.LibFns {
+		if root, _ := caseHome(p, f, f.Pos()); root == a.vmRun && f != a.vmRun {
+			fns = append(fns, f)
+		}
+	}
+	for _, fn := range fns {
+		for _, b := range fn.Blocks {
+			for _, ins := range b.Instrs {
+				st, ok := ins.(*ssa.Store)
+				if !ok {
+					continue
+				}
+				ia, ok := st.Addr.(*ssa.IndexAddr)
+				if !ok {
+					continue
+				}
+				mk, ok := ia.X.(*ssa.MakeSlice)
+				if !ok {
+					continue
+				}
+				// the stored value is what a Pop returned
+				fromPop := false
+				for _, o := range origins(st.Val) {
+					if ex, ok := o.(*ssa.Extract); ok {
+						if c, ok := ex.Tuple.(*ssa.Call); ok && c.Call.StaticCallee() != nil && c.Call.StaticCallee().Name() == "Pop" {
+							fromPop = true
 						}
 					}
 				}
-				return true
-			})
-			if storesAt == id.Name+"-1" && dec {
-				good = true
-			} else if storesAt != "" {
-				why = "popped values are stored at index " + storesAt + " (decrement present: " + fmt.Sprint(dec) + "): the last value pushed must land in the last position"
+				if !fromPop {
+					continue
+				}
+				_, label := caseHome(p, fn, st.Pos())
+				op := ""
+				for _, o := range []string{"OpArray", "OpCall"} {
+					if strings.Contains(label, o) {
+						op = o
+					}
+				}
+				if op == "" {
+					continue
+				}
+				pos[op] = st.Pos()
+				// index = φ + c, φ = φ(init, φ + step): first index is the length
+				// minus one, and it goes down by one
+				base, c := lin(ia.Index)
+				ph, ok := base.(*ssa.Phi)
+				if !ok || len(ph.Edges) != 2 {
+					why[op] = "the index at which a popped value is stored is not a loop counter"
+					continue
+				}
+				var init ssa.Value
+				step, haveStep := int64(0), false
+				for _, e := range ph.Edges {
+					eb, ek := lin(e)
+					if eb == ssa.Value(ph) {
+						step, haveStep = ek, true
+					} else {
+						init = e
+					}
+				}
+				if init == nil || !haveStep {
+					why[op] = "the index at which a popped value is stored is not a simple loop counter"
+					continue
+				}
+				ib, ik := lin(init)
+				lb, lk := lin(mk.Len)
+				switch {
+				case step != -1:
+					why[op] = fmt.Sprintf("the index moves by %d per popped value, not down by one", step)
+				case ib != lb || ik+c != lk-1:
+					why[op] = "the first popped value is not stored in the last position of the slice (popped values are stored from another index than length-1 downwards): the last value pushed must land in the last position"
+				default:
+					found[op] = true
+				}
 			}
-			return true
-		})
-		r.Check(good, key, p.Pos(cl.Pos()), "slice[n-1] = pop(); n--", why+": elements / arguments would arrive in reverse order")
+		}
+	}
+	for _, op := range []string{"OpArray", "OpCall"} {
+		key := op + " stores popped values from the last index down"
+		switch {
+		case found[op] && why[op] == "":
+			r.OkNT(key, p.Pos(pos[op]), "slice[n-1], slice[n-2], … as the values are popped")
+		case why[op] != "":
+			r.Fail(key, p.Pos(pos[op]), why[op]+": elements / arguments would arrive in reverse order")
+		default:
+			r.Fail(key, "-", "no loop that pops the operands into a slice of their number, last position first: elements / arguments would arrive in reverse order")
+		}
 	}
 }
 
@@ -1497,25 +1786,17 @@ func ruleScopeSearch(p *Program, r *Reporter) {
 			if !ok || fieldKey(u.X) != er.scopeField {
 				continue
 			}
-			bo, ok := ia.Index.(*ssa.BinOp)
-			if !ok || bo.Op != token.SUB {
-				why = "the scope stack is searched with an index that is not counter-1"
-				continue
-			}
-			ph, ok := bo.X.(*ssa.Phi)
+			ph, c, init, step, ok := induction(ia.Index)
 			if !ok {
-				why = "the search index is not a loop counter"
+				why = "the index with which the scope stack is searched is not a loop counter"
 				continue
 			}
-			startsAtLen, stepsDown := false, false
-			for _, e := range ph.Edges {
-				if _, ok := isBuiltinCall(e, "len"); ok {
+			// the first index is len(scopes)-1 and it goes down by one
+			startsAtLen, stepsDown := false, step == -1
+			ib, ik := linear(init)
+			if lc, ok := isBuiltinCall(ib, "len"); ok && ik+c == -1 {
+				if u2, ok := lc.Call.Args[0].(*ssa.UnOp); ok && fieldKey(u2.X) == er.scopeField {
 					startsAtLen = true
-				}
-				if b2, ok := e.(*ssa.BinOp); ok && b2.Op == token.SUB && b2.X == ssa.Value(ph) {
-					if n, ok := constInt(b2.Y); ok && n == 1 {
-						stepsDown = true
-					}
 				}
 			}
 			if startsAtLen && stepsDown {
